@@ -16,7 +16,8 @@
 //!                 inserts the rows, and the library must open it with the pass key and show identical contents — by scan,
 //!                 by `fetch` of every record (searchable category / name) and by tag filters (searchable tag name / value)
 //!   c09:golden    a store file written by the UNMODIFIED PINNED tree (golden/<method>.db) is copied, opened by the current
-//!                 code and compared with its recorded dump (oracle); the Lean spec decrypts it too (out, as c09:read)
+//!                 code and compared with its recorded dump, every recorded record is looked up by fetch and by tag filter
+//!                 (oracle); the Lean spec decrypts the file as the pinned tree left it (out, as c09:read)
 //!
 //! The oracle judges the property without the Lean model: documented lengths (nonce 12 + tag 16), equal plaintext ⇒
 //! equal searchable ciphertext and different plaintext ⇒ different, config rows and version, key-entry shape, profile key
@@ -876,15 +877,17 @@ fn gen_b58(r: &mut Rng, id: String, n: usize) -> Value {
 pub fn gen(r: &mut Rng, thorough: bool, count: Option<usize>) -> Vec<Value> {
     let mut out = vec![json!({"kind": "c09:selftest", "id": "selftest"}), json!({"kind": "c09:consts", "id": "consts"})];
     for f in ["raw", "none", "kdf-int", "kdf-mod"] { out.push(json!({"kind": "c09:golden", "id": format!("golden-{}", f), "file": f})); }
-    let scale = count.unwrap_or(if thorough { 20 } else { 1 });
+    // quick: 30 + 30 library-written and 25 + 25 spec-written stores under raw / none, 3 + 3 under argon2i int, 1 + 1 under mod
+    // (a moderate derivation costs ~0.3 s on each side); thorough: 8 times as many (`--count n` = that factor)
+    let scale = count.unwrap_or(if thorough { 8 } else { 1 });
     for i in 0..2 * scale { out.push(gen_b58(r, format!("b58-{}", i), if thorough { 200 } else { 100 })); }
-    for i in 0..12 * scale { out.push(gen_read(r, format!("read-raw-{}", i), "raw")); }
-    for i in 0..12 * scale { out.push(gen_read(r, format!("read-none-{}", i), "none")); }
-    for i in 0..2 * scale { out.push(gen_read(r, format!("read-int-{}", i), "kdf:int")); }
-    for i in 0..(if thorough { scale } else { 1 }) { out.push(gen_read(r, format!("read-mod-{}", i), "kdf:mod")); }
-    for i in 0..10 * scale { out.push(gen_write(r, format!("write-raw-{}", i), "raw")); }
-    for i in 0..10 * scale { out.push(gen_write(r, format!("write-none-{}", i), "none")); }
-    for i in 0..2 * scale { out.push(gen_write(r, format!("write-int-{}", i), "kdf:int")); }
-    for i in 0..(if thorough { scale / 2 } else { 1 }) { out.push(gen_write(r, format!("write-mod-{}", i), "kdf:mod")); }
+    for i in 0..30 * scale { out.push(gen_read(r, format!("read-raw-{}", i), "raw")); }
+    for i in 0..30 * scale { out.push(gen_read(r, format!("read-none-{}", i), "none")); }
+    for i in 0..3 * scale { out.push(gen_read(r, format!("read-int-{}", i), "kdf:int")); }
+    for i in 0..scale { out.push(gen_read(r, format!("read-mod-{}", i), "kdf:mod")); }
+    for i in 0..25 * scale { out.push(gen_write(r, format!("write-raw-{}", i), "raw")); }
+    for i in 0..25 * scale { out.push(gen_write(r, format!("write-none-{}", i), "none")); }
+    for i in 0..3 * scale { out.push(gen_write(r, format!("write-int-{}", i), "kdf:int")); }
+    for i in 0..scale { out.push(gen_write(r, format!("write-mod-{}", i), "kdf:mod")); }
     out
 }
